@@ -33,7 +33,7 @@ vars == <<tid, l, st, mem, viol>>
 
 Tr      == AllTraces[tid].events
 Ev      == Tr[l]
-HasSnap(e) == e.e \in {"start", "gsc", "lsc", "sprout", "end", "abort", "report", "dump", "retarget"}
+HasSnap(e) == e.e \in {"start", "gsc", "lsc", "sprout", "end", "abort", "report", "dump", "retarget", "sethib"}
 
 -----------------------------------------------------------------------------
 (* Reading events                                                          *)
@@ -224,6 +224,11 @@ PreAt(s, e) ==
       [] e.e \in {"report", "dump"} ->      \* probes at the loop head (before the loop-head consult)
            LET s0 == IF s.pc = "sprout" THEN [s EXCEPT !.pc = "loop"] ELSE s
            IN R(IF s0.pc \in {"init", "loop"} THEN InitAll(s0, e.b) ELSE s0, {})
+      [] e.e = "sethib" ->                  \* the caller switches the hibernation option off at a boundary: from now on
+           LET s0 == IF s.pc = "sprout" THEN [s EXCEPT !.pc = "loop"] ELSE s          \* nobody is suspended any more
+               s1 == IF s0.pc \in {"init", "loop"} THEN InitAll(s0, e.b) ELSE s0
+           IN R([s1 EXCEPT !.cfg.hib = e.v,
+                           !.D = [d \in DOMAIN s1.D |-> [s1.D[d] EXCEPT !.hib = IF e.v = 0 THEN FALSE ELSE @]]], {})
       [] OTHER -> R(s, {})
 
 Pre(s, e) == LET h == ImplicitLoopHead(s, e)
@@ -557,8 +562,10 @@ SproutClauses(s, m, e) ==
    \cup (IF \E i \in DOMAIN e.atoms.far : e.atoms.far[i][4] # 1 THEN {"C09_FarFromConsidered"} ELSE {})
    \cup (IF \E i \in DOMAIN e.used : ~(usedOf(e.used[i][1]) \subseteq genOf(e.used[i][1])) THEN {"C10_FiltersOnlyRemove"} ELSE {})
    \cup (IF \E x \in seeds : x[2][1] \notin usedOf(x[1]) THEN {"C10_FiltersOnlyRemove"} ELSE {})
+   \* (the local-method generator may offer the best individual of a deme that has just finished - not of an active one)
    \cup (IF \E i \in DOMAIN e.gen : \E j \in DOMAIN e.gen[i][2] :
-              ~(e.gen[i][2][j][3] = 1 \/ (viaLocal /\ e.gen[i][2][j][4] = 1))
+              ~(e.gen[i][2][j][3] = 1 \/ (viaLocal /\ e.gen[i][2][j][4] = 1
+                                           /\ e.gen[i][1] \in Ids(s) /\ ~s.D[e.gen[i][1]].active))
          THEN {"C10_CandidatesFromCurrentPopulation"} ELSE {})
    \cup (IF s.cfg.generator = "best" /\ \E i \in DOMAIN e.gen :
               \/ Len(e.gen[i][2]) # 1
